@@ -35,13 +35,16 @@ def _one(prop, kind, idx, rel, old, new, expect):
         text = open(path, encoding="utf-8").read()
     except OSError:
         return dict(kind=kind, idx=idx, rel=rel, status="not-applicable", why="file missing")
-    if old not in text:
+    olds, news = old.split("|||"), new.split("|||")      # a variant may consist of several cooperating edits
+    if len(olds) != len(news) or any(o not in text for o in olds):
         return dict(kind=kind, idx=idx, rel=rel, status="not-applicable", why="anchor text not present on the current tree")
     d = tempfile.mkdtemp(prefix="aoself_%s_" % prop)
     try:
         shutil.copytree(os.path.join(src_root, "aotools"), os.path.join(d, "aotools"),
                         ignore=shutil.ignore_patterns("__pycache__"))
-        mod = text.replace(old, new, 1)
+        mod = text
+        for o, n in zip(olds, news):
+            mod = mod.replace(o, n, 1)
         try:
             compile(mod, rel, "exec")
         except SyntaxError as e:
@@ -54,7 +57,7 @@ def _one(prop, kind, idx, rel, old, new, expect):
         rules = sorted(set(l.split()[2] for l in r.stdout.splitlines() if l.startswith("FINDING ") and len(l.split()) > 2))
         out = dict(kind=kind, idx=idx, rel=rel, exit=r.returncode, rules=rules, edit=(old[:60].replace("\n", "\\n") + " -> " + new[:60].replace("\n", "\\n")))
         if kind == "seeded":
-            hit = r.returncode == 1 and (expect is None or any(x.startswith(expect) for x in rules))
+            hit = r.returncode == 1 and (expect is None or any(x.startswith(expect) or expect in x for x in rules))
             out["status"] = "detected" if hit else "MISSED"
             out["expected_rule"] = expect
         else:
